@@ -183,12 +183,21 @@ func rclass(r int) string {
 	return "R>=3"
 }
 
-func bitsDesc(need string, p int) string {
+func bitsDesc(need string, r, p int) string {
 	f := func(b int) int {
 		if p&b != 0 {
 			return 1
 		}
 		return 0
+	}
+	if r == 2 {
+		switch need {
+		case "extract":
+			return fmt.Sprintf("bit5=%d", f(bit5))
+		case "modify":
+			return fmt.Sprintf("bit4=%d", f(bit4))
+		}
+		return fmt.Sprintf("bit4=%d,bit5=%d", f(bit4), f(bit5))
 	}
 	switch need {
 	case "extract":
@@ -230,17 +239,17 @@ func judge(t *vk.T, layer string, mode model.CommandMode, name, needs string, r,
 	ci := caseInfo{Layer: layer, Mode: name, Needs: needs, R: r, P: p, Alg: alg, Want: v.String(), Got: got}
 	switch {
 	case v == mustDeny && !refused:
-		t.Violate(fmt.Sprintf("%s/%s/needs=%s/%s/denied-right-but-proceeds", layer, rclass(r), needs, bitsDesc(needs, p)),
+		t.Violate(fmt.Sprintf("%s/%s/needs=%s/%s/denied-right-but-proceeds", layer, rclass(r), needs, bitsDesc(needs, r, p)),
 			fmt.Sprintf("%s (needs %s) R=%d P=%#x: every bit that could grant the right is clear, but the command is not refused", name, needs, r, uint32(p)), ci)
 	case v == mustAllow && refused:
-		t.Violate(fmt.Sprintf("%s/%s/needs=%s/%s/granted-right-but-refused", layer, rclass(r), needs, bitsDesc(needs, p)),
+		t.Violate(fmt.Sprintf("%s/%s/needs=%s/%s/granted-right-but-refused", layer, rclass(r), needs, bitsDesc(needs, r, p)),
 			fmt.Sprintf("%s (needs %s) R=%d P=%#x: all related bits are set, but the command is refused (%s)", name, needs, r, uint32(p), got), ci)
 	case v == isoDeny && !refused:
-		t.Violate(fmt.Sprintf("iso-table-22/%s/needs=%s/%s/%s-proceeds", rclass(r), needs, bitsDesc(needs, p), modeKind(mode)),
-			fmt.Sprintf("%s (needs %s) R=%d P=%#x: ISO 32000-1 Table 22 denies this right (%s) but pdfcpu lets the command proceed", name, needs, r, uint32(p), bitsDesc(needs, p)), ci)
+		t.Violate(fmt.Sprintf("iso-table-22/%s/needs=%s/%s/%s-proceeds", rclass(r), needs, bitsDesc(needs, r, p), modeKind(mode)),
+			fmt.Sprintf("%s (needs %s) R=%d P=%#x: ISO 32000-1 Table 22 denies this right (%s) but pdfcpu lets the command proceed", name, needs, r, uint32(p), bitsDesc(needs, r, p)), ci)
 	case v == isoAllow && refused:
-		t.Violate(fmt.Sprintf("iso-table-22/%s/needs=%s/%s/%s-refused", rclass(r), needs, bitsDesc(needs, p), modeKind(mode)),
-			fmt.Sprintf("%s (needs %s) R=%d P=%#x: ISO 32000-1 Table 22 grants this right (%s) but pdfcpu refuses the command (%s)", name, needs, r, uint32(p), bitsDesc(needs, p), got), ci)
+		t.Violate(fmt.Sprintf("iso-table-22/%s/needs=%s/%s/%s-refused", rclass(r), needs, bitsDesc(needs, r, p), modeKind(mode)),
+			fmt.Sprintf("%s (needs %s) R=%d P=%#x: ISO 32000-1 Table 22 grants this right (%s) but pdfcpu refuses the command (%s)", name, needs, r, uint32(p), bitsDesc(needs, r, p), got), ci)
 	}
 }
 
